@@ -34,7 +34,11 @@ class VLoop(asyncio.SelectorEventLoop):
     def __init__(self):
         super().__init__()
         self.ms = T0
-        self.tie_rng = None
+        # optional timer lateness (the default, 0, is the exact loop the models assume: a timer callback runs at its due millisecond).
+        # With max_late = n > 0 the clock, when it jumps to the next due timer, overshoots by a seeded 0..n ms -- as a loaded
+        # asyncio loop does; everything due by then runs in that iteration, in due order.  Timers never run early.
+        self.max_late = 0
+        self.late_rng = None
 
     def time(self):
         return self.ms / 1000.0
@@ -57,7 +61,7 @@ class VLoop(asyncio.SelectorEventLoop):
         if not self._ready and sched:
             w = round(sched[0]._when * 1000)
             if w > self.ms:
-                self.ms = w
+                self.ms = w + (self.late_rng.randint(0, self.max_late) if self.max_late and self.late_rng is not None else 0)
         super()._run_once()
 
 
@@ -208,14 +212,15 @@ BLOCK_METHODS = [
     ("zeroconf._engine", "AsyncEngine", "_async_cache_cleanup", "cleanup"),
     ("zeroconf._listener", "AsyncListener", "_respond_query", "tc.respond"),
 ]
-INTERESTING = ("async_check_service", "_async_broadcast_service", "async_request", "async_unregister_all_services",
+INTERESTING = ("async_check_service", "_async_broadcast_service", "_async_send_repeatedly", "async_request", "async_unregister_all_services",
                "async_close", "async_register_service", "async_unregister_service", "async_update_service",
                "_async_start_query_sender", "_async_setup", "_async_close")
 
 
 class Sim:
-    def __init__(self, seed=0, maxdelay=20, loopback=True, log_blocks=False):
+    def __init__(self, seed=0, maxdelay=20, loopback=True, log_blocks=False, max_late=0):
         self.seed = seed
+        self.max_late = max_late
         self.rng = random.Random("lib/%s" % seed)  # the library's own jitter
         self.net_rng = random.Random("net/%s" % seed)
         self.sc_rng = random.Random("scenario/%s" % seed)
@@ -315,6 +320,8 @@ class Sim:
         import zeroconf._services.info as inf
 
         loop = VLoop()
+        loop.max_late = self.max_late
+        loop.late_rng = random.Random("late/%s" % self.seed)
         self.loop = loop
         asyncio.set_event_loop(loop)
         patches = [mock.patch("time.monotonic", loop.time), mock.patch("random.randint", self.randint),
